@@ -88,7 +88,7 @@ def _stream1(tier):
 def _stream2(tier, r):
     out = []
     fronts = ["-", "-", "0", "1", "r"]
-    n = 400 if tier == "quick" else 4000
+    n = 250 if tier == "quick" else 4000
     for k in range(n):
         lines = ["g begin", "g view 61 2e", "g view %s 2f" % hx("a/b")]
         for _ in range(r.choice([2, 3, 5, 8])):
@@ -162,7 +162,7 @@ def _stream3(tier):
 
 def _stream4(tier, r, scale):
     out = []
-    n = (150 if tier == "quick" else 2000) * scale
+    n = (100 if tier == "quick" else 2000) * scale
     lens = [0, 1, 1, 2, 2, 254, 255, 256, 300]
     for k in range(n):
         names = []
@@ -197,7 +197,7 @@ def _stream5(tier, r):
     out = []
     elems = [["a"], ["a", "b"], ["a", "cc", "d"], ["a", "b", "zz"], ["b"], ["a", "cc"], ["ccc", "a"]]
     fmt = lambda e: ",".join(hx(x) for x in e)
-    n = 150 if tier == "quick" else 1500
+    n = 100 if tier == "quick" else 1500
     for k in range(n):
         lines = ["g begin"]
         for _ in range(r.choice([2, 3, 5, 8])):
@@ -230,7 +230,7 @@ def _stream6(tier, r):
     targets = ["a", "a.b", "a.b.c", "a.c", "c", "c.d", "c.d.e", "a.b.c.d"]
     fronts = [("-", ""), ("r", ""), ("0", "a"), ("1", "a.b"), ("2", "q.r")]
     k = 0
-    for pre in preludes:
+    for pre in (preludes[:3] if tier == "quick" else preludes):
         for tr, base in fronts:
             for t in targets:
                 if tr not in ("-", "r") and t.startswith("a"):
@@ -249,7 +249,7 @@ def _stream6(tier, r):
                 k += 1
     # an element of 65535 bytes and more at every position of the path
     j = 0
-    for pre in preludes[:3]:
+    for pre in (preludes[:2] if tier == "quick" else preludes[:3]):
         for tr, base in fronts:
             for ppre, suf in (("", ""), ("c.", ""), ("c.d.", ""), ("a.", ""), ("a.b.", ".z"), ("c.", ".z"), ("", ".z.y")):
                 for n in ((65535, 65536) if tier == "quick" else (65535, 65536, 66000, 70000)):
@@ -266,7 +266,7 @@ def _stream6(tier, r):
                                 + checks + probe + ["g end"]))
                     j += 1
     # random mixes
-    for i in range(150 if tier == "quick" else 1500):
+    for i in range(100 if tier == "quick" else 1500):
         lines = ["g begin", "g view 61 2e", "g view %s 2e" % hx("a.b"), "g view %s 2e" % hx("q.r")]
         pool = ["a", "a.b", "a.b.c", "c", "c.d", "b", "q", "q.r", "q.r.s", "a.b.z"]
         for _ in range(r.choice([4, 8, 12])):
